@@ -541,5 +541,10 @@ func (this *partition) isOnNode(nodeId uint64) bool {
 
 func (this *partition) randomNodeId() uint64 {
 	nodeIds := this.nodeIds()
+	if len(nodeIds) == 0 {
+		// No node hosts this partition (all of its nodes left the cluster).
+		// 0 is never a valid node id, dialing it fails and the request gets an error.
+		return 0
+	}
 	return nodeIds[rand.Intn(len(nodeIds))]
 }
